@@ -51,6 +51,101 @@ func ruleOpts(c *Ctx) {
 	l := c.L
 	a := c.nilFor(b)
 	eDoc := b.constInt("eDoc")
+	// (a0) one options value per call: a function that received the caller's options hands
+	// exactly those on to everything it calls (a narrowed or rebuilt copy would be stored in
+	// the documents parsed on that path and decide how they are written out)
+	// keeps[f][i]: f can store its options parameter i into an object (directly or through a callee)
+	keeps := map[*ssa.Function]map[int]bool{}
+	for changed := true; changed; {
+		changed = false
+		for _, fn := range b.srcFuncs(b.Lib) {
+			for pi, p := range fn.Params {
+				if !isPtrToNamed(p.Type(), "ApplyOptions") || keeps[fn][pi] {
+					continue
+				}
+				k := false
+				for _, r := range *p.Referrers() {
+					switch x := r.(type) {
+					case *ssa.Store:
+						if x.Val == ssa.Value(p) {
+							if _, isFA := x.Addr.(*ssa.FieldAddr); isFA {
+								k = true
+							}
+						}
+					case ssa.CallInstruction:
+						com := x.Common()
+						for ai, arg := range callArgs(com) {
+							if arg != ssa.Value(p) {
+								continue
+							}
+							for _, g := range b.callees(com) {
+								if keeps[g][ai] {
+									k = true
+								}
+							}
+						}
+					}
+				}
+				if k {
+					if keeps[fn] == nil {
+						keeps[fn] = map[int]bool{}
+					}
+					keeps[fn][pi] = true
+					changed = true
+				}
+			}
+		}
+	}
+	for _, fn := range b.srcFuncs(b.Lib) {
+		var own *ssa.Parameter
+		for _, p := range fn.Params {
+			if isPtrToNamed(p.Type(), "ApplyOptions") {
+				own = p
+			}
+		}
+		if own == nil {
+			continue
+		}
+		n := 0
+		bad := ""
+		allInstrs(fn, func(i ssa.Instruction) {
+			ci, ok := i.(ssa.CallInstruction)
+			if !ok {
+				return
+			}
+			com := ci.Common()
+			if f := com.StaticCallee(); f != nil && f.Pkg != b.Lib {
+				return
+			}
+			for ai, arg := range callArgs(com) {
+				if !isPtrToNamed(arg.Type(), "ApplyOptions") {
+					continue
+				}
+				kept := false
+				for _, g := range b.callees(com) {
+					if keeps[g][ai] {
+						kept = true
+					}
+				}
+				if !kept {
+					continue // the callee only reads the switches
+				}
+				n++
+				if arg != ssa.Value(own) {
+					bad = fmt.Sprintf("%s is given %s instead of the options this function received (at %s): objects parsed on that path keep those other options and are written out with them (EscapeHTML), and the switches no longer apply uniformly to one call", calleeLabel(com), describeValue(arg), b.posOf(i))
+				}
+			}
+		})
+		if n == 0 {
+			continue
+		}
+		key := fmt.Sprintf("%s: hands its own options, unchanged, to every callee that can store them in a document", b.canonFname(fn))
+		if bad != "" {
+			l.add("R-OPTS", "v5", key, b.rel(fn.Pos()), Violated, bad, true)
+		} else {
+			l.add("R-OPTS", "v5", key, b.rel(fn.Pos()), Discharged, fmt.Sprintf("%d options argument(s), each the function's own parameter %s", n, own.Name()), true)
+		}
+	}
 	// (a1) composite literals
 	for _, fn := range b.srcFuncs(b.Lib) {
 		n := 0
